@@ -1,0 +1,65 @@
+//go:build verif
+
+// Machine-checked contracts for package calcium (comment-only; see /verif/DESIGN.md).
+
+package calcium
+
+//@ # ---- assumed contracts of the metadata store (interface methods; trusted, listed in evidence) ----
+//@ func (Store) GetNode
+//@   ensures err == nil ==> result0 != nil && allocated(result0) && result0.Name == nodename
+//@ func (Store) GetNodesByPod
+//@   ensures err == nil ==> (arr(result0) == 0 || (allocated(result0) && fresh(result0))) && forall k :: 0 <= k && k < len(result0) ==> result0[k] != nil && allocated(result0[k])
+
+//@ func (*Calcium) filterNodes
+//@   requires c != nil && nodeFilter != nil && c.store != nil
+//@   # include list: exactly the named nodes, each once, in ascending name order
+//@   ensures[C21.include-sorted] err == nil ==> forall a, b :: 0 <= a && a < b && b < len(ns) ==> ns[a].Name < ns[b].Name
+//@   ensures[C21.include-set]    err == nil && len(nodeFilter.Includes) != 0 ==>
+//@                                   (forall a :: 0 <= a && a < len(ns) ==> exists k :: 0 <= k && k < len(nodeFilter.Includes) && nodeFilter.Includes[k] == ns[a].Name)
+//@                                && (forall k :: 0 <= k && k < len(nodeFilter.Includes) ==> exists a :: 0 <= a && a < len(ns) && ns[a].Name == nodeFilter.Includes[k])
+//@   # otherwise: the pod's listed nodes minus the excluded ones
+//@   ensures[C21.exclude-set]    err == nil && len(nodeFilter.Includes) == 0 ==> let listed == res(Store.GetNodesByPod, 0) ::
+//@                                   (forall a :: 0 <= a && a < len(ns) ==> (exists k :: 0 <= k && k < len(listed) && atcall(Store.GetNodesByPod, listed[k].Name) == ns[a].Name)
+//@                                                       && (forall e :: 0 <= e && e < len(nodeFilter.Excludes) ==> nodeFilter.Excludes[e] != ns[a].Name))
+//@                                && (forall k :: 0 <= k && k < len(listed) && (forall e :: 0 <= e && e < len(nodeFilter.Excludes) ==> nodeFilter.Excludes[e] != atcall(Store.GetNodesByPod, listed[k].Name))
+//@                                                       ==> exists a :: 0 <= a && a < len(ns) && ns[a].Name == atcall(Store.GetNodesByPod, listed[k].Name))
+//@   ensures[C21.nonnil]         err == nil ==> forall a :: 0 <= a && a < len(ns) ==> ns[a] != nil
+//@   loop 1:
+//@     modifies nothing
+//@     invariant len(ns) == rangeindex + 1 && (arr(ns) == 0 || (fresh(ns) && allocated(ns)))
+//@     invariant forall a :: 0 <= a && a < len(ns) ==> ns[a] != nil && allocated(ns[a]) && ns[a].Name == nodeFilter.Includes[a]
+//@   loop 2:
+//@     modifies excludes
+//@     invariant fresh(excludes) && allocated(excludes) && excludes != nil
+//@     invariant forall x string :: (x in excludes) <==> (exists e :: 0 <= e && e <= rangeindex && nodeFilter.Excludes[e] == x)
+//@   loop 3:
+//@     modifies nothing
+//@     invariant len(ns) <= rangeindex + 1 && (arr(ns) == 0 || (fresh(ns) && allocated(ns)))
+//@     invariant forall x string :: (x in excludes) <==> (exists e :: 0 <= e && e < len(nodeFilter.Excludes) && nodeFilter.Excludes[e] == x)
+//@     invariant forall a :: 0 <= a && a < len(ns) ==> ns[a] != nil && allocated(ns[a]) && !(ns[a].Name in excludes)
+//@                     && exists k :: 0 <= k && k <= rangeindex && listedNodes[k] == ns[a]
+//@     invariant forall k :: 0 <= k && k <= rangeindex && !(listedNodes[k].Name in excludes) ==> exists a :: 0 <= a && a < len(ns) && ns[a] == listedNodes[k]
+
+//@ # the deferred sort-and-deduplicate step of filterNodes (a function literal with its own contract;
+//@ # ns and err are the captured named results)
+//@ func filterNodes$1
+//@   requires (arr(ns) == 0 || allocated(ns)) && forall a :: 0 <= a && a < len(ns) ==> ns[a] != nil && allocated(ns[a])
+//@   modifies ns[_]
+//@   ensures[C21.dedupe-sorted] forall a, b :: 0 <= a && a < b && b < len(ns) ==> ns[a].Name < ns[b].Name
+//@   # same set of names before and after (two inclusions)
+//@   ensures[C21.dedupe-set]    (forall a :: 0 <= a && a < len(ns) ==> exists b :: 0 <= b && b < len(old(ns)) && old(ns[b].Name) == ns[a].Name)
+//@                           && (forall b :: 0 <= b && b < len(old(ns)) ==> exists a :: 0 <= a && a < len(ns) && ns[a].Name == old(ns[b].Name))
+//@   ensures[C21.dedupe-nonnil] forall a :: 0 <= a && a < len(ns) ==> ns[a] != nil && allocated(ns[a])
+//@   ensures[C21.dedupe-same]   arr(ns) == old(arr(ns)) && len(ns) <= old(len(ns))
+//@   loop 1:
+//@     modifies ns[_]
+//@     invariant 0 <= p && p <= rangeindex + 1 && (rangeindex >= 0 ==> p >= 1) && len(ns) == pre(len(ns)) && arr(ns) == pre(arr(ns)) && off(ns) == pre(off(ns))
+//@     invariant forall a, b :: 0 <= a && a < b && b < p ==> ns[a].Name < ns[b].Name
+//@     invariant forall a, b :: 0 <= a && a < b && b < len(ns) ==> pre(ns[a].Name) <= pre(ns[b].Name)
+//@     invariant forall a :: rangeindex < a && a < len(ns) ==> ns[a] == pre(ns[a])
+//@     invariant forall a :: 0 <= a && a < len(ns) ==> ns[a] != nil && allocated(ns[a]) && pre(ns[a]) != nil && pre(allocated(ns[a]))
+//@     invariant p >= 1 ==> let r == rangeindex :: ns[p-1].Name == pre(ns[r].Name)
+//@     invariant forall a :: 0 <= a && a < p ==> exists b :: 0 <= b && b <= rangeindex && pre(ns[b].Name) == ns[a].Name
+//@     invariant forall b :: 0 <= b && b <= rangeindex ==> exists a :: 0 <= a && a < p && ns[a].Name == pre(ns[b].Name)
+//@     invariant forall a :: 0 <= a && a < len(ns) ==> exists b :: 0 <= b && b < len(old(ns)) && old(ns[b].Name) == pre(ns[a].Name)
+//@     invariant forall b :: 0 <= b && b < len(old(ns)) ==> exists a :: 0 <= a && a < len(ns) && pre(ns[a].Name) == old(ns[b].Name)
